@@ -176,7 +176,15 @@ func c02Recipe(c *core.Ctx, r ref.CharRecipe) {
 		return
 	}
 	if st.Unannounced > 0 {
-		c.Incomplete("unannounced reads in %v: uniformity not decided for draws outside randomUint32n", lit)
+		c.Incomplete("raw 32-bit reads outside the bounded draw in %v: exact probabilities not decided (only a 45-word menu of the 2^32 raw values is explored)", lit)
+		// validity of everything returned is still decided
+		for k := range d.Mass {
+			if chars := keyChars(k); chars == nil || !r.Valid(chars) {
+				c.Violation("recipe "+mustJSON(lit)+" invalid", fmt.Sprintf("returned %q, which the recipe does not allow", k), map[string]interface{}{"recipe": lit, "outcomes": d.Example[k]})
+				break
+			}
+		}
+		return
 	}
 	key := fmt.Sprintf("recipe %s", mustJSON(lit))
 	if d.PanMass.Sign() != 0 {
